@@ -30,6 +30,7 @@ import Tahoe.Crypto.UseLemmas
     | lease renewal / cancel secrets, client → file → bucket | `spec_form_client_*`, `spec_form_file_*`, `spec_form_bucket_*`, `chain_renewal_secret`, `chain_cancel_secret`, `lease_tags_as_documented` | extraction + correspondence + lease.rst vectors |
     | … the lease secrets SENT to each server are that server's (upload, repair) | `trackers_pairing`, `tracker_uses_own_server_secret`, `trackers_defined_iff`, `upload_query_carries_own_server_chain` (any candidate list, any filter) | correspondence: `trackers`/`uptrackers` vs `Tahoe2ServerSelector._create_trackers` / `get_shareholders`; `allocate_buckets` traffic on grids with filtered servers |
     | … add-lease renews the lease the upload/publish created ("leases unrenewable") | `add_lease_matches_upload_lease`, `mutable_add_lease_matches_publish_lease` | correspondence: `chkaddlease`/`mutaddlease` vs `add_lease` traffic; monitor: one lease per share, renewable with the spec secret |
+    | … the seed that enters the chain is the server's TubID, whatever it announces | `lease_seed_is_tubid`, `permutation_seed_shapes`, `announced_server_gets_tubid_chain` | correspondence: `nativeserver` vs real `NativeStorageServer` / `HTTPNativeStorageServer` built from announcements of every shape; wire traffic of Checker / ServermapUpdater / node getters |
     | "tagged double SHA-256 with netstring-wrapped tags" | every `spec_form_*` (shape), `pre_is_hasher_input`, `hasher_streaming`, `netstring_unique_decoding`, `netstring_prefix_free` | `tag_binding*` (extractor observes tag, #feeds, truncation of each function) |
     | tags single-purpose (a change/confusion of derivations cannot collide) | `tags_pairwise_distinct`, `domain_separated` (guard shown tight by `domain_separation_needs_secret_length`) | — |
     | convergent key | `spec_form_convergence`, `convergence_rejects_bad_parameters`, `tag_binding_convergence` | extraction + correspondence |
@@ -692,6 +693,57 @@ theorem mutable_node_storage_index (leaseSecret writekey : List UInt8) :
           ++ (sha256 (sha256 (netstring (ascii "allmydata_mutable_writekey_to_readkey_v1") ++ writekey))).take 16))).take 16 := by
   rw [← tag_MUTABLE_READKEY, ← tag_MUTABLE_STORAGEINDEX]
   rfl
+
+/-- **The lease seed is the TubID** (lease.rst: "the peer id is … the SHA1 digest of the server's x509
+    certificate", i.e. the Tub id of the storage FURL) — for every announcement shape (any announced
+    permutation seed of any length, none at all, any server id) and for both transports; so is the
+    write-enabler seed.  The permutation seed has no influence on either. -/
+theorem lease_seed_is_tubid (t : Transport) (a : Announcement) :
+    (nativeServer t a).leaseSeed = a.tubid ∧ (nativeServer t a).weSeed = a.tubid ∧
+    (nativeServer t a).tubid = a.tubid ∧
+    ∀ seed', (nativeServer t { a with seedAnnounced := seed' }).leaseSeed = (nativeServer t a).leaseSeed :=
+  ⟨rfl, rfl, rfl, fun _ => rfl⟩
+
+example : (nativeServer .foolscap ⟨[118, 48], List.replicate 20 7, some (List.replicate 20 9), none⟩).leaseSeed
+    = List.replicate 20 7 := rfl
+
+/-- the permutation seed, shape by shape: the announced seed if any, else the public key of a `v0-` server
+    id, else SHA-256 of the server id -/
+theorem permutation_seed_shapes (t : Transport) (a : Announcement) :
+    (nativeServer t a).permutationSeed =
+      match a.seedAnnounced, a.serverIdPubkey with
+      | some s, _ => s
+      | none, some k => k
+      | none, none => sha256 a.serverId := by
+  cases h1 : a.seedAnnounced <;> cases h2 : a.serverIdPubkey <;>
+    simp [nativeServer, permutationSeed, h1, h2]
+
+example : (nativeServer .http ⟨[1], [2], none, some [3]⟩).permutationSeed = [3] := rfl
+
+/-- **End to end from the announcement**: the add-lease message the immutable checker sends to a server
+    built from announcement `a` carries the lease.rst chain over `a`'s TubID — whatever permutation seed the
+    server announces. -/
+theorem announced_server_gets_tubid_chain (t : Transport) (a : Announcement) (leaseSecret si : List UInt8)
+    (mx : Nat) (h : a.tubid.length = 20) :
+    checkerAddLease leaseSecret si ((nativeServer t a).toServer mx) = some
+      ⟨(nativeServer t a).toServer mx, si,
+       sha256 (sha256 (netstring (ascii "allmydata_bucket_renewal_secret_v1")
+         ++ netstring (sha256 (sha256 (netstring (ascii "allmydata_file_renewal_secret_v1")
+              ++ netstring (sha256 (sha256 (netstring leaseSecret ++ ascii "allmydata_client_renewal_secret_v1")))
+              ++ netstring si)))
+         ++ netstring a.tubid)),
+       sha256 (sha256 (netstring (ascii "allmydata_bucket_cancel_secret_v1")
+         ++ netstring (sha256 (sha256 (netstring (ascii "allmydata_file_cancel_secret_v1")
+              ++ netstring (sha256 (sha256 (netstring leaseSecret ++ ascii "allmydata_client_cancel_secret_v1")))
+              ++ netstring si)))
+         ++ netstring a.tubid))⟩ := by
+  rw [← tag_BUCKET_RENEWAL, ← tag_FILE_RENEWAL, ← tag_CLIENT_RENEWAL, ← tag_BUCKET_CANCEL, ← tag_FILE_CANCEL,
+    ← tag_CLIENT_CANCEL]
+  simp only [checkerAddLease, NativeServer.toServer, nativeServer, bucketRenewalSecretHash, bucketCancelSecretHash,
+    h, if_true, List.append_assoc]
+  rfl
+
+example : (⟨[1], List.replicate 20 7, some (List.replicate 20 9), none⟩ : Announcement).tubid.length = 20 := by decide
 
 end Use
 
